@@ -65,7 +65,10 @@ def doc_spec(rng, tag):
                           "unit": rng.choice([None, "mV"])})
         sub = []
         if rng.random() < 0.3:
-            sub.append({"name": "%ssub" % tag, "type": "subtype", "props": [], "secs": []})
+            # now and then the sub-Section carries the name of one of the Section's Properties:
+            # a Property and a Section of one name under one parent are different children
+            sname = "%ssub" % tag if (not props or rng.random() < 0.6) else props[0]["name"]
+            sub.append({"name": sname, "type": "subtype", "props": [], "secs": []})
         secs.append({"name": "%ss%d" % (tag, i), "type": "type%d" % i, "props": props, "secs": sub})
     return {"author": "author %s" % tag, "secs": secs}
 
